@@ -34,7 +34,11 @@ func (v *Vue) evalVHtml(ctx VueContext, n *html.Node) error {
 	}
 
 	// Evaluate v-html expression to its string value and store in internal attribute
-	htmlStr := fmt.Sprint(val)
+	htmlStr := ""
+	if val != nil {
+		// (a nil value prints nothing, as in {{ }})
+		htmlStr = fmt.Sprint(val)
+	}
 	n.Attr = append(n.Attr, html.Attribute{Key: "data-v-html-content", Val: htmlStr})
 
 	// Clear children - v-html content will be output directly during rendering
